@@ -4,7 +4,7 @@
    implementation produces; the theorems below say what a `true` answer means, for reports of
    any size, and that the model's own reports satisfy the per-entry clauses. *)
 From Coq Require Import List ZArith Bool String.
-From NP Require Import IntervalSet IntervalSetProofs ConnSet ConnSetProofs World Eval Spec EvalProofs Build Connlist ListProofs WfProofs.
+From NP Require Import IntervalSet IntervalSetProofs ConnSet ConnSetProofs World Eval Spec EvalProofs Build Connlist ListProofs WfProofs PartitionProofs PartitionTiles.
 Import ListNotations.
 Open Scope Z_scope.
 
@@ -58,3 +58,10 @@ Theorem C05_model_entries_wf w focus hi r :
     cs_isempty (re_conn e) = false /\ cs_ninv (re_conn e).
 Proof. exact (list_world_entries_wf w focus hi r). Qed.
 Print Assumptions C05_model_entries_wf.
+
+(* the IP peers of every model report tile the address space: the partition part of the checker accepts them, whatever
+   IPv4 ranges the rules mention *)
+Theorem C05_model_peers_tile w blocks :
+  blocks_in_range blocks -> ip_partition_okb (map mp_r (mpeers_of w (ip_partition blocks))) = true.
+Proof. exact (model_peers_partition_ok w blocks). Qed.
+Print Assumptions C05_model_peers_tile.
